@@ -48,7 +48,7 @@ def main():
         else:
             ids.append(args[i]); i += 1
     impl = implemented()
-    mids = sorted(os.path.basename(p) for p in glob.glob(f"{VERIF}/seeded/C*-m*"))
+    mids = sorted(os.path.basename(p) for p in glob.glob(f"{VERIF}/seeded/C*-*m*"))
     if ids:
         mids = [m for m in mids if m in ids or m.split("-")[0] in ids]
     jobs = []
